@@ -62,6 +62,11 @@ CLAIMED = {
         "For 13 repository-changing operations (loose object, conditional ref update/create/delete, pack_refs, symbolic ref, index write, config write, commit through the work-tree API, add_objects as a pack, pack_loose_objects, repack, gc with pruning) from a loose and a packed starting repository, and a crash immediately before any of the first 60 file-system calls at a symbolic index: the directory image reopens, every ref holds its old or new value and names a present object that re-hashes to its name, every previously reachable object is byte-identical, index and config parse. Same under the power-loss model with core.fsyncObjectFiles on, where each file written by the operation keeps only its last-fsynced content (symbolic per file). One genuine defect found by this check was repaired (fix: b3ae6a7).",
         "Trusted: z3 (forking), ksym, the kernel's file-system semantics on /dev/shm; the image is a recursive copy taken at the crash instant; durability model = content at last fsync of the file (directory-entry durability not modelled).",
     ),
+    "C10": (
+        "bounded symbolic exploration of gc/repack over real repositories (ksym): object-graph shape, refs, storage layout and stale acceleration files are solver-forked; mtimes, clock and grace period are symbolic integers decided by the solver",
+        "find_reachable_objects/find_unreachable_objects equal the reference closure for every graph of 2-3 commits (all parent sets, shared subtree, tag and tag-of-tag) and every ref configuration (branch anywhere/absent, tag ref, HEAD detached/attached/unborn) on a real bare repository; prune_unreachable_objects with symbolic integer mtimes, clock and grace period deletes an object only if it is unreachable and at least as old as the grace period, and keeps only younger ones (every ordering and boundary equality decided by z3); pack_loose_objects, repack and garbage_collect (no grace / default / no prune) leave every reachable object byte-identical for every loose/packed/both layout, with and without a multi-pack-index written beforehand, for the running process and for a re-opened repository. One genuine defect was repaired (stale multi-pack-index). Concurrent readers during a repack and alternates are not covered.",
+        "Trusted: z3, ksym, the kernel file system; time.time()/get_object_mtime() replaced by symbolic integers.",
+    ),
     "C11": (
         "bounded symbolic execution of the real index (de)serialisation kernels (ksym) against each other and against reference models of git's varint.c and on-disk entry layout",
         "For every value below 2^63 the v4 varint round-trips and is byte-identical to git's varint.c; path compression round-trips (memory and stream decoders) for every pair of paths of up to 3 bytes and for 127..300-byte previous paths; write_cache_entry->read_cache_entry returns every field for versions 2,3,4 with all stat fields, stage/assume-valid and skip-worktree/intent-to-add bits symbolic, names of 1..9 symbolic bytes (all padding classes) and of 0xFFE..0x1001 bytes, with git's layout (saturating 12-bit length, 1..8 NUL padding); index_entry_from_stat->write never fails for any 64-bit stat value and stores it modulo 2^32. Three genuine defects found by this check were repaired. Ordering of entries, extensions and the SHA trailer are not covered by this check yet.",
